@@ -24,7 +24,10 @@ class Universe:
         self.names = list(names)
         # 'mix' holds incomparable values (str / None): sorting by it raises part-way through
         self.mix = ['b', 'a', None, 'c', 'a'][:self.n]
-        self.tasks = [Task(ids[i], name=names[i], tag='t%d' % i, mix=self.mix[i]) for i in range(self.n)]
+        # attribute names that look like the library's own bookkeeping (parent_id, predecessor_ids, *_id) are ordinary
+        # custom attributes and must be treated as such
+        self.extra = [dict(parent_id='p%d' % i, predecessor_ids='q%d' % i, ticket_id='T-%d' % i) for i in range(self.n)]
+        self.tasks = [Task(ids[i], name=names[i], tag='t%d' % i, mix=self.mix[i], **self.extra[i]) for i in range(self.n)]
         self.wbs = []
         for k in range(n_wbs):
             w = WBS()
@@ -406,7 +409,7 @@ def getter_violations(U: Universe, obs):
             got = 'RecursionError'
         if got != mem:
             out.append(('C05', 'wbs-tasks-not-dfs', f'W{k}.tasks = {got}, depth-first members are {mem}'))
-        for idv in sorted(set(U.ids)) + [ABSENT_ID]:
+        for idv in sorted(set(U.ids), key=repr) + [ABSENT_ID]:
             exp = [i for i in mem if U.ids[i] == idv]
             try:
                 g = r(w[idv])
